@@ -49,4 +49,12 @@ theorem c03_sameline (env : Model.Interp.Env) (e : Model.Interp.Node) (es : List
       Model.Interp.matchExprs env es (Model.Interp.applyAll v (Model.Interp.evalExpr env v e).2.1) f' b' :=
   ⟨_, _, Proofs.Matcher.matchExprs_step env e es v f b hs hk⟩
 
+/-- `left -> right`: when `left` holds, `right` is evaluated in the state `left` leaves (so an
+    assignment on the right sees what the left side wrote), and that is all the component does -/
+theorem c03_when_order (fuel : Nat) (env : Model.Interp.Env) (l r : Model.Interp.Node) (s : Model.Interp.ES)
+    (h : ((Model.Interp.evalM fuel env l s).1 == some true) = true) (ho : Model.Interp.overridesFrozen l = false) :
+    (Model.Interp.evalWhen (fuel + 1) env l r s).2 =
+      (Model.Interp.evalM fuel env r (Model.Interp.evalM fuel env l s).2).2 :=
+  Proofs.Matcher.when_true fuel env l r s h ho
+
 end Props.C03
